@@ -71,7 +71,7 @@ unsafe fn emergency() -> ! {
     if fd >= 0 {
         raw_write(fd, b"{\"property\":\"");
         raw_write(fd, std::slice::from_raw_parts(prop, plen));
-        raw_write(fd, b"\",\"section\":\"heap-cap\",\"signature\":\"heap:hard-cap-exceeded\",\"message\":\"a single call allocated more than the per-thread hard cap\",\"input\":{\"hex\":\"");
+        raw_write(fd, b"\",\"section\":\"bytes\",\"signature\":\"heap:hard-cap-exceeded\",\"message\":\"a single call allocated more than the per-thread hard cap\",\"input\":\"");
         let ptr = INPUT_PTR.with(|c| c.get());
         let len = INPUT_LEN.with(|c| c.get());
         if !ptr.is_null() {
@@ -89,7 +89,7 @@ unsafe fn emergency() -> ! {
                 i += n;
             }
         }
-        raw_write(fd, b"\"}}\n");
+        raw_write(fd, b"\"}\n");
         libc::close(fd);
     }
     raw_write(1, b"VIOLATION property=");
